@@ -178,4 +178,46 @@ func rleFacts(f *hc.Facts) {
 	dec := strings.Join(strings.Fields(f.FuncSrc(fdir, "rleDecode")), " ")
 	f.Bool("rleDecodeShape", dec == "{ var last []byte for _, cur := range s { if string(last) == string(rune(0)) { r = append(r, bytes.Repeat(last, int(cur))...) last = nil } else { r = append(r, last...) last = []byte{cur} } } r = append(r, last...) return r }",
 		"rleDecode is the pinned loop (a pending zero byte is expanded by the next byte, anything else is copied)")
+	// --- hand-transliterated glue: pinned by canonical source (comments stripped)
+	type pin struct{ name, want string }
+	pins := []pin{
+		{"EncodeFileID", "{ var buf bin.Buffer id.encodeLatestFileID(&buf) buf.Buf = append(buf.Buf, persistentIDVersion) buf.Buf = rleEncode(buf.Buf) return base64Encode(buf.Buf), nil }"},
+		{"DecodeFileID", "{ if s == \"\" { return FileID{}, errors.New(\"input is empty\") } data, err := base64Decode(s) if err != nil { return FileID{}, errors.Wrap(err, \"base64\") } data = rleDecode(data) if len(data) < 2 { return FileID{}, errors.New(\"RLE-decoded data is too small\") } switch version := data[len(data)-1]; version { case persistentIDVersionOld, persistentIDVersionMap: return FileID{}, errors.Errorf(\"%v is unsupported now\", version) case persistentIDVersion: data = data[:len(data)-1] err := fileID.decodeLatestFileID(&bin.Buffer{Buf: data}) return fileID, err default: return FileID{}, errors.Errorf(\"unknown file_id version %x\", version) } }"},
+		{"base64Encode", "{ return base64.RawURLEncoding.EncodeToString(s) }"},
+		{"base64Decode", "{ return base64.RawURLEncoding.DecodeString(s) }"},
+	}
+	var changed []string
+	for _, p := range pins {
+		if noComments(f.FuncSrc(fdir, p.name)) != p.want {
+			changed = append(changed, fmt.Sprintf("%q", p.name))
+		}
+	}
+	// the flag arithmetic on the type word, inside encodeLatestFileID / decodeLatestFileID
+	typeWord := func(fn string, wants []string) {
+		src := noComments(f.FuncSrc(fdir, fn))
+		for _, w := range wants {
+			if !strings.Contains(src, w) {
+				changed = append(changed, fmt.Sprintf("%q", fn+": "+w))
+			}
+		}
+	}
+	typeWord("FileID.decodeLatestFileID", []string{
+		"if len(b.Buf) < 1 { return io.ErrUnexpectedEOF } var subVersion = b.Buf[len(b.Buf)-1] typeID, err := b.Uint32()",
+		"hasWebLocation := typeID&webLocationFlag != 0 hasReference := typeID&fileReferenceFlag != 0 typeID &^= webLocationFlag typeID &^= fileReferenceFlag if typeID >= uint32(lastType) { return errors.Errorf(\"unknown type %d\", typeID) } f.Type = Type(typeID)",
+	})
+	typeWord("FileID.encodeLatestFileID", []string{
+		"hasWebLocation := f.URL != \"\" hasReference := len(f.FileReference) != 0 { typeID := f.Type if hasWebLocation { typeID |= webLocationFlag } if hasReference { typeID |= fileReferenceFlag } b.PutUint32(uint32(typeID)) }",
+	})
+	f.Raw("def changedGlue : List String := [" + strings.Join(changed, ", ") + "] -- hand-transliterated glue (EncodeFileID, DecodeFileID, base64, flag arithmetic on the type word) whose source differs from the text the model was written from")
+}
+
+func noComments(src string) string {
+	var out []string
+	for _, l := range strings.Split(src, "\n") {
+		if i := strings.Index(l, "//"); i >= 0 {
+			l = l[:i]
+		}
+		out = append(out, l)
+	}
+	return strings.Join(strings.Fields(strings.Join(out, " ")), " ")
 }
